@@ -507,7 +507,101 @@ func checkC08(tier, replay string) int {
 				}
 			}
 		}
+		if p != nil && p.Alive() {
+			c08FirstRequests(run, p)
+		}
 	})
 	run.Floor("requests", 1000)
 	return run.Finish()
+}
+
+// c08FirstRequests: the very first request of a connection is what the server picks the
+// protocol from. Every kind of first request (each binary opcode family incl. gete / quiet
+// batches; text lines that fail and do not start with a lower-case letter) must be answered
+// like the same request later on the connection, and the connection must stay usable.
+func c08FirstRequests(run *evid.Run, p *harness.Proxy) {
+	cfgName := p.Cfg.Name()
+	p.ResetStores()
+	type first struct {
+		binary bool
+		cmd    wire.Cmd
+	}
+	var firsts []first
+	for _, c := range []wire.Cmd{
+		{Op: "get", Keys: []string{"ka"}, Opaque: 0x11},
+		{Op: "get", Keys: []string{"ka", "kb"}, Opaque: 0x20, NoopEnd: true},
+		{Op: "gat", Key: "ka", TTL: 10, Opaque: 0x30},
+		{Op: "touch", Key: "ka", TTL: 10, Opaque: 0x31},
+		{Op: "delete", Key: "ka", Opaque: 0x32},
+		{Op: "append", Key: "ka", Value: []byte("x"), Opaque: 0x33},
+		{Op: "replace", Key: "ka", Value: []byte("x"), Opaque: 0x34},
+		{Op: "set", Key: "kfirst", Value: []byte("x"), QuietSet: true, Opaque: 0x35},
+		{Op: "noop", Opaque: 0x36}, {Op: "version", Opaque: 0x37},
+	} {
+		firsts = append(firsts, first{true, c})
+	}
+	if geteSupported(p) {
+		firsts = append(firsts, first{true, wire.Cmd{Op: "gete", Keys: []string{"ka"}, Opaque: 0x40}},
+			first{true, wire.Cmd{Op: "gete", Keys: []string{"ka", "kb"}, Opaque: 0x48, NoopEnd: true}})
+	}
+	for _, raw := range []string{"GET ka\r\n", "VERSION\r\n", "123\r\n", "\r\n", "Set ka 0 0 1\r\n", "[]\r\n", "~\r\n", "@get\r\n"} {
+		firsts = append(firsts, first{false, wire.Cmd{Op: "raw", Raw: []byte(raw)}})
+	}
+	for _, c := range []wire.Cmd{{Op: "get", Keys: []string{"ka"}}, {Op: "delete", Key: "ka"}, {Op: "touch", Key: "ka", TTL: 5}, {Op: "version"}} {
+		firsts = append(firsts, first{false, c})
+	}
+	for _, f := range firsts {
+		cl, err := p.Dial(0, f.binary)
+		if err != nil {
+			run.Violation(cfgName+"|first request|server refuses a new connection", map[string]interface{}{"request": f.cmd.Short()})
+			return
+		}
+		cl.Watchdog = 10 * time.Second
+		m := model.New(p.L1.Now)
+		run.Eval(1)
+		run.Count("first_requests", 1)
+		run.Distinct(fmt.Sprintf("first|%s|%v|%s", cfgName, f.binary, f.cmd.Short()))
+		bad := ""
+		var detail interface{}
+		check := func(c wire.Cmd) bool {
+			exp := expected(m, c, f.binary)
+			obs, err := cl.Do(c)
+			switch {
+			case err != nil:
+				bad, detail = "no well-formed reply: "+canonAnomaly(err.Error()), c.Short()
+			case c.Op == "raw":
+				info := strings.TrimPrefix(obs.Info, "LINE ")
+				switch {
+				case obs.Replies != 1:
+					bad, detail = fmt.Sprintf("error form answered by %s replies", countWord(obs.Replies)), c.Short()
+				case !(strings.Contains(info, "ERROR")):
+					bad, detail = "error form not answered by an error line", map[string]interface{}{"request": c.Short(), "reply": obs.Info}
+				}
+			default:
+				if d := diffResult(c, exp, obs, f.binary); d != "" {
+					bad, detail = d, map[string]interface{}{"request": c.Short(), "observed": brief(obs)}
+				}
+			}
+			return bad == ""
+		}
+		if check(f.cmd) {
+			// and the connection is usable afterwards
+			follow := wire.Cmd{Op: "get", Keys: []string{"kfollow"}, Opaque: 0x77}
+			if check(follow) {
+				check(wire.Cmd{Op: "version", Opaque: 0x78})
+			}
+		}
+		cl.Close()
+		if bad != "" {
+			kind := opKind(f.cmd)
+			if f.cmd.Op == "raw" {
+				kind = "failing text line not starting with a lower-case letter"
+			}
+			run.Violation(fmt.Sprintf("%s|%s|first request of a connection|%s|%s", cfgName, protoName(f.binary), kind, bad),
+				map[string]interface{}{"config": p.Cfg, "first_request": f.cmd.Short(), "detail": detail})
+			if !p.Alive() {
+				return
+			}
+		}
+	}
 }
